@@ -1,7 +1,7 @@
 """Runs the trace-set code of the repository under test on a list of calls (stdin JSON -> stdout JSON).
 
 Calls:
-  basis : flegendre / fchebyshev / fpoly / fchebyshev_split on an array, Python scalars or numpy scalars
+  basis : flegendre / fchebyshev / fpoly / fchebyshev_split on an array, Python float / Python int / numpy float64 scalars
   fit   : func_fit(x, y, ncoeff, invvar=, function_name=, ia=, inputans=, inputfunc=)
   trace : xy2traceset(xpos, ypos, ...) then traceset2xy(tset, xpos) and traceset2xy(tset)
   eval  : TraceSet(FITS_rec) built from given coefficients, then traceset2xy(tset, xpos or None, ignore_jump)
@@ -69,7 +69,7 @@ def call(c):
                     r = fn(np.array(c['xs'], dtype='d'), m)
                     out = r
                 else:
-                    conv = float if c['mode'] == 'scalar' else np.float64
+                    conv = {'scalar': float, 'npscalar': np.float64, 'pyint': int}[c['mode']]
                     colsr = [fn(conv(x), m) for x in c['xs']]
                     if not all(col.shape == (m, 1) for col in colsr):
                         return {'err': 'Shape', 'msg': str([col.shape for col in colsr])}
